@@ -260,18 +260,23 @@ def r3_completeness(ctx):
             isf = [c for c in conds if c.startswith('isinstance(') and 'Fiber' in c]
             det = f'att_in = {vkey(v)[:260]}'
             if len(below) == 1:
-                a = {below[0]: True}
-                for c in isf:
-                    a[c] = True
+                a = {c: True for c in conds}            # not exempted, first element is a fibre, loss below the padding
                 hit = restrict(v, a)
-                miss = restrict(v, {below[0]: False})
+                miss = restrict(v, dict(a, **{below[0]: False}))
                 ok = isinstance(hit, Rat) and hit.eq(old + pad - SL) and isinstance(miss, Rat) and miss.eq(old) and \
                     ep.cond_info.get(below[0], (None,))[0] == 'lt' and ep.cond_info[below[0]][1].eq(SL) and ep.cond_info[below[0]][2].eq(pad)
     ctx.check('R3.defaults', site(pd), ok, key(pd, 'padding'),
               'padding does not raise the input attenuation of the first fibre by exactly (padding - span loss) when the span loss '
               'is below the padding (att_in + padding - span_loss): spans would end up below (or above) the configured minimum loss', det)
-    guards = [ast.unparse(n.test) for n in walk_no_nested(pd.node) if isinstance(n, ast.If) and
-              any(isinstance(x, ast.Continue) for x in n.body)]
+    # canonical form: the guard clauses (`if ..: continue`) are the conjuncts of the test around the padding computation
+    slc = calls_to(pd, {'span_loss'})
+    gif = enclosing(slc[0], ast.If) if slc else None
+    guards = []
+    while gif is not None:
+        t = gif.test
+        guards += [ast.unparse(x) for x in (t.values if isinstance(t, ast.BoolOp) and isinstance(t.op, ast.And) else [t])]
+        gif = enclosing(gif, ast.If)
+    guards = [g_ for g_ in guards if g_.startswith('not isinstance(')]
     ctx.check('R3.defaults', f'{site(pd)} exemptions', any('Fused' in g_ for g_ in guards) and any('RamanFiber' in g_ for g_ in guards),
               key(pd, 'exempt'), 'padding is no longer skipped before fused elements and for Raman fibres', f'{guards}')
     ctx.need('R3.definite', 4)
